@@ -19,6 +19,7 @@ with the declarations (z3 assumption `parameter == declared value expression` fo
 one); parameters WITHOUT a declared value stay unconstrained.
 """
 import itertools
+import logging
 import os
 import re
 import shutil
@@ -466,7 +467,7 @@ def check_model(col, model, R, case, text, pins=(), extra=None):
     try:
         f = model.variable_metadata_function
     except Exception as e:
-        col.violation(f"{case}:metadata-raises:{type(e).__name__}", f"variable_metadata_function raises {type(e).__name__}: {str(e)[-160:]}", rp)
+        col.violation(f"{case}:metadata-raises:{type(e).__name__}", f"variable_metadata_function raises {type(e).__name__}: {_first_line(e)}", rp)
         return
     _, zout, div = sx2z3(f, [pnames], R.div)
     groups = [model.states, model.alg_states, model.inputs, model.parameters, model.constants]
@@ -533,6 +534,7 @@ def decide(col, assume, g, w, inlined):
     if r == "sat" and inlined:
         gs = z3.simplify(g)
         if z3.is_rational_value(gs):
+            col.bump("inlined_float_rechecks")
             tol = 1e-9 * (1 + abs(float(gs.as_fraction())))
             r, m = equiv.check(col, assume + [z3.Or(w - g > tol, g - w > tol)])
     return r, m
@@ -706,9 +708,18 @@ def compile_cached(text, cls, options):
         shutil.rmtree(d, ignore_errors=True)
 
 
+def _first_line(e):
+    lines = [l.strip() for l in str(e).splitlines() if l.strip()]
+    if not lines:
+        return ""
+    # CasADi errors: the first line names the call, the last one the reason
+    return (lines[0] if len(lines) == 1 else lines[0][:100] + " ... " + lines[-1][:80])[:200]
+
+
 def work(item):
     case, kind, i, optname, observe = item
     col = Collector()
+    logging.getLogger("pymoca").setLevel(logging.ERROR)  # "Caching implies expanding to SX", "System is not balanced", ...
     try:
         options, policy = OPTSETS[optname]
         if kind.startswith("hier"):
@@ -738,7 +749,7 @@ def work(item):
         except Exception as e:
             # every member of the family uses only attribute forms named in C13
             tag = "raises" if stage == "generate()" else stage[:-2] + "-raises"
-            col.violation(f"{case}:{tag}:{type(e).__name__}", f"{stage} raises {type(e).__name__}: {str(e)[:100]}", rp)
+            col.violation(f"{case}:{tag}:{type(e).__name__}", f"{stage} raises {type(e).__name__}: {_first_line(e)}", rp)
             col.bump("programs")
             return col
         if R is None:
@@ -907,21 +918,25 @@ def main():
     except Exception:
         rep.harness_error("canary failed: " + traceback.format_exc()[-500:])
     cov = rep.coverage
-    cov["disagreements_checked"] = rep.queries.get("sat", 0)
+    # a sat of the exact query on an inlined float constant is re-asked with the replay tolerance (decide()): those are
+    # roundings of CasADi's own constant folding, not disagreements
+    cov["disagreements_checked"] = rep.queries.get("sat", 0) - cov.get("inlined_float_rechecks", 0)
     cov["functions_encoded"] = ["Generator._ast_symbols_to_variables (via generate)", "Model.simplify (metadata rewrites of the option sets)",
                                 "Model.variable_metadata_function (SX DAG -> z3, incl. affine rebuild)",
                                 "api.transfer_model/save_model/load_model (Variable objects and metadata function of the cached model)"]
     cov["option_sets"] = sorted({it[3] for it in items})
     cov["bounds"] = (
         "17 attribute expressions (literal, affine, non-affine) rotated over value/start/min/max/nominal of state/algebraic/input/parameter; "
-        "arrays of 3 and 2x2; matrices 2x3/3x2/2x2/1x3/3x1 with matrix-valued parameter expressions (valued and unvalued parameter matrices); "
+        "arrays of 3 and 2x2; vectors of 3 with vector-valued parameter expressions, literal/parameter mixes ({1,2,3} + pv, p * {1,2,3}) and Integer arrays; matrices 2x3/3x2/2x2/1x3/3x1 with matrix-valued parameter expressions (valued and unvalued parameter matrices); "
         "arrays of 10-15 elements; parameters without a declared value (Real/Integer/Boolean, arrays), parameter values that depend on them, "
         "symbolic Boolean `fixed`; constants in attributes (with constant replacement); 12 three-level hierarchies (Tank in Plant in Site) whose "
         "modifications are written 1-2 levels above in nested and dotted spelling with names shadowed inside the component (expected attributes "
         "from vk/ref/flatten_ref.py); crossed (rotating in quick, fully in thorough) with the option sets listed in option_sets via generate+simplify, "
         "and observed on the freshly compiled model, on the compile that writes the cache and on the CachedModel of a second transfer_model; "
         "all parameter values unbounded reals (under value-inlining options: all vectors consistent with the declared values)")
-    rep.assumptions += ["real arithmetic; sin/pow uninterpreted; divisors non-zero", "NaN and inf defaults are opaque constants shared by both sides",
+    rep.assumptions += ["real arithmetic; sin/pow uninterpreted; divisors non-zero",
+                        "Python types: Integer/Boolean variables and scalar Real variables strictly; an element of an expanded Real array may keep the int of an integer-valued array literal (counted in real_element_attribute_left_int)",
+                        "after value inlining a float constant is compared with the exact declared value up to the replay tolerance 1e-9 (CasADi folds 2/3 to a double)", "NaN and inf defaults are opaque constants shared by both sides",
                         "under resolve/replace_parameter_values and replace_parameter_expressions the eliminated parameters equal their declared value expressions",
                         "cached observation: models with unexpanded arrays are only cached together with expand_vectors (C19 open finding on array positions)"]
     return rep.finish()
